@@ -91,6 +91,8 @@ MODES = {
     'InGen': "def g():\n    yield 1\n    raise ValueError('g')\nlist(g())",
     'InComp': "[1/0 for _ in range(1)]",
     'AfterPrint': "print('before')\nx = 1\nraise KeyError('late')",
+    # the student closes the stream pedal captures
+    'CloseStdout': "import sys\nprint('x')\nsys.stdout.close()\nraise ValueError('after close')",
     # compile() failing with something other than a SyntaxError
     'CompileRecursion': "x = " + "+".join(["1"] * 6000),
     'Surrogate': "s = '\udc80'",
@@ -99,6 +101,17 @@ MODES = {
     'Reraise': "def parse(t):\n    try:\n        n = int(t)\n    except ValueError:\n        print('bad', t)\n        raise\n    return n\nparse('twelve')",
     'WithBlock': "class M:\n    def __enter__(self): return self\n    def __exit__(self, *a):\n        x = 1\n        return False\nwith M():\n    y = 1\n    1/0\n    z = 2",
 }
+# every common exception class raised bare (no arguments) and as an instance without arguments
+for _name in ('KeyError', 'IndexError', 'ValueError', 'TypeError', 'NameError', 'AttributeError', 'ZeroDivisionError',
+              'RuntimeError', 'StopIteration', 'AssertionError', 'OSError', 'ImportError', 'LookupError', 'ArithmeticError',
+              'NotImplementedError', 'FileNotFoundError', 'EOFError', 'UnicodeError', 'OverflowError', 'ModuleNotFoundError',
+              'IndentationError', 'SyntaxError', 'RecursionError', 'PermissionError'):
+    MODES['Bare:' + _name] = "x = 1\nraise %s" % _name
+    MODES['NoArgs:' + _name] = "raise %s()" % _name
+# failures deep in the call stack (deeper than any display limit for traceback frames)
+MODES['DeepChain'] = "\n".join("def f%d():\n    return f%d()" % (i, i + 1) for i in range(10)) + \
+    "\ndef f10():\n    y = 2\n    return [][y]\nf0()"
+MODES['DeepRecursionBase'] = "def cd(n):\n    if n == 0:\n        return 1 / 0\n    return cd(n - 1)\ncd(12)"
 COMPILE_FAIL = ('Syntax', 'Indent', 'Tab', 'NUL', 'UntermStr', 'CompileRecursion', 'Surrogate')
 SYSTEM_EXIT = ('exit()', 'quit()', 'sys.exit', 'sys.exit msg', 'SystemExit')
 BASE_MODES = {
@@ -172,8 +185,9 @@ class FaultInjector:
     defined under the repository is a choice point 'inject a fault here?' (cost 1)."""
     TOOL = 4
 
-    def __init__(self, anchors, repo_prefix):
+    def __init__(self, anchors, repo_prefix, entry_sites=()):
         self.anchors = set(anchors)
+        self.entry_sites = set(entry_sites)      # functions whose own entry is a fault site wherever it happens
         self.prefix = repo_prefix
         self.ctx = None
         self.depth = 0
@@ -216,7 +230,7 @@ class FaultInjector:
             self.depth += 1
             if self.depth == 1:
                 return   # the anchor's own entry is not a fault point
-        if self.depth > 0:
+        if self.depth > 0 or code.co_name in self.entry_sites:
             self.sites += 1
             tag = 'fault@' + code.co_name
             if ctx.choose(2, tag, costs=(0, 1)):
